@@ -21,7 +21,10 @@ open Program
     under the key "h" first); a list of integers is a cell holding them; a list of objects is a cell
     `[-8]` with its elements as references; a numpy integer array is a cell `-7 :: values`; a tuple of
     objects is a cell `[-6]` (immutable: never mutated in place); an instance of a plain Python class is a
-    cell `[-5]` whose references are its attribute values in insertion order (attribute "h" first) -/
+    cell `[-5]` whose references are its attribute values in insertion order (attribute "h" first); a numpy
+    array of dtype=object is a cell `[-4]` (`[-4, c]`: 2-D with `c` columns) whose references are its
+    ELEMENTS (per-individual record lists, arrays of unequal length, …) — `copy.deepcopy` copies them
+    (`deepCopyAll`), `ndarray.copy()` does not (`levelCopy`: the copy stops at the array) -/
 abbrev D := List Int
 abbrev V := View D
 
@@ -68,13 +71,14 @@ def appendTo (h : Heap (Cell D)) (a : Ref) (x : Int) : Heap (Cell D) :=
 
 /-- in-place mutation of one object with token `x`, by kind: dict / class instance — append to its "h"
     list (created when absent, e.g. in an empty dict); list of integers — append; array — overwrite the
-    last element; list or tuple of objects — nothing -/
+    last element; list, tuple or object-dtype array of objects — nothing (their elements are mutated,
+    addressed by path) -/
 def mutCell (h : Heap (Cell D)) (a : Ref) (x : Int) : Heap (Cell D) :=
   match h[a]? with
   | none => h
   | some c =>
     if c.data == dictD || c.data == objD then appendTo h a x
-    else if c.data.head? == some (-8) || c.data.head? == some (-6) then h
+    else if c.data.head? == some (-8) || c.data.head? == some (-6) || c.data.head? == some (-4) then h
     else if c.data.head? == some (-7) then
       (if c.data.length ≥ 2 then h.set a { c with data := c.data.dropLast ++ [x] } else h)
     else h.set a { c with data := c.data ++ [x] }
